@@ -1,7 +1,399 @@
-//! C16 — not built yet
-use crate::vcore::Tier;
+//! C16 — emulation is deterministic and independent of how the host drives it.
+//! Schedule enumeration with a differential oracle: the default driving (one frame per call,
+//! stopwatch 0, sound on, audio drained, in-memory assets) defines a digest per completed frame;
+//! every deviation must reproduce the same digest at every frame boundary it stops at.
 
-pub fn run(_tier: Tier, _seed: u64, _replay: Option<String>) -> i32 {
-    eprintln!("MACHINERY: check C16 is not built yet");
-    2
+use crate::rig::{self, Opts, VAsset, VCtx, VDebug, VExt, VFrame, VStopwatch};
+use crate::vcore::{explore_dev, fnv, fnv_mix, par_for, Ctx, Dev, Tier};
+use rustzx_core::host::{BufferCursor, Host, HostContext, Snapshot, Tape};
+use rustzx_core::zx::keys::ZXKey;
+use rustzx_core::{EmulationMode, EmulationStopReason, Emulator};
+use rustzx_utils::io::{DynamicAsset, DynamicAssetImpl, FileAsset, GzipAsset};
+use serde_json::json;
+use std::collections::BTreeMap;
+use std::time::Duration;
+
+impl DynamicAssetImpl for VAsset {}
+
+pub struct DCtx;
+impl HostContext<DHost> for DCtx {
+    fn frame_buffer_context(&self) {}
+}
+/// Host whose tape asset is the dynamic asset of rustzx-utils, so every asset implementation can
+/// deliver the same bytes
+pub struct DHost;
+impl Host for DHost {
+    type Context = DCtx;
+    type TapeAsset = DynamicAsset;
+    type FrameBuffer = VFrame;
+    type EmulationStopwatch = VStopwatch;
+    type IoExtender = VExt;
+    type DebugInterface = VDebug;
+}
+type DEmu = Emulator<DHost>;
+
+#[derive(Clone, Copy, Debug, PartialEq, Eq)]
+pub enum Scenario {
+    RomBoot,
+    RomKeys,
+    TapeFast,
+    TapeReal,
+    Tune,
+}
+
+#[derive(Clone, Copy, Debug, PartialEq, Eq)]
+pub enum AssetKind {
+    Buffer,
+    Chunk(usize),
+    File,
+    Gzip,
+}
+
+#[derive(Clone, Debug)]
+pub enum Driving {
+    Default,
+    Composition(Vec<usize>),
+    MaxMode(Vec<usize>),
+    Breakpoints(Vec<u16>),
+    BreakAlways,
+    SoundOff,
+    Drain(u32),
+    Asset(AssetKind),
+}
+
+fn tape_bytes() -> Vec<u8> {
+    rig::gunzip(&rig::read_file("/repo/rustzx-test/test_data/simple_tape.tap.gz"))
+}
+
+fn make_asset(bytes: &[u8], kind: AssetKind, tag: &str) -> DynamicAsset {
+    match kind {
+        AssetKind::Buffer => DynamicAsset::from(BufferCursor::new(bytes.to_vec())),
+        AssetKind::Chunk(n) => DynamicAsset::from(VAsset::new(bytes.to_vec()).chunked(n)),
+        AssetKind::File => {
+            let dir = "/verif/harness/target/c16-tmp";
+            let _ = std::fs::create_dir_all(dir);
+            let path = format!("{}/{}-{:?}.bin", dir, tag, std::thread::current().id());
+            std::fs::write(&path, bytes).expect("write temp asset");
+            let f = std::fs::File::open(&path).expect("open temp asset");
+            let _ = std::fs::remove_file(&path);
+            DynamicAsset::from(FileAsset::from(f))
+        }
+        AssetKind::Gzip => {
+            use std::io::Write;
+            let mut gz = flate2::write::GzEncoder::new(Vec::new(), flate2::Compression::default());
+            gz.write_all(bytes).unwrap();
+            let z = gz.finish().unwrap();
+            DynamicAsset::from(GzipAsset::new(std::io::Cursor::new(z)).expect("gzip"))
+        }
+    }
+}
+
+fn build(sc: Scenario, m128: bool, asset: AssetKind) -> DEmu {
+    let mut o = Opts::machine(m128);
+    o.sound = true;
+    o.ay = m128;
+    o.fastload = sc == Scenario::TapeFast;
+    o.autoload = matches!(sc, Scenario::TapeFast | Scenario::TapeReal);
+    let mut e = Emulator::<DHost>::new(rig::settings(&o), DCtx).ok().expect("Emulator::new");
+    match sc {
+        Scenario::RomBoot | Scenario::RomKeys => {}
+        Scenario::TapeFast | Scenario::TapeReal => {
+            e.load_tape(Tape::Tap(make_asset(&tape_bytes(), asset, "tape"))).ok().expect("load_tape");
+            if sc == Scenario::TapeReal {
+                e.play_tape();
+            }
+        }
+        Scenario::Tune => {
+            let f = rig::gunzip(&rig::read_file(&format!("/repo/rustzx-test/test_data/sound.{}.sna.gz", if m128 { "128k" } else { "48k" })));
+            e.load_snapshot(Snapshot::Sna(make_asset(&f, asset, "tune"))).ok().expect("load_snapshot");
+        }
+    }
+    e
+}
+
+fn digest(e: &mut DEmu, m128: bool, audio: Option<&[(f32, f32)]>) -> u64 {
+    let v = rig::regs_view(e.verif_cpu());
+    let mut h = fnv(format!("{:?}", v).as_bytes());
+    let banks = if m128 { 8 } else { 3 };
+    for b in 0..banks {
+        h = fnv_mix(h, fnv(e.verif_ram_bank(b)));
+    }
+    let p = e.verif_paging();
+    h = fnv_mix(h, p.0 as u64 | (p.1 as u64) << 8 | (p.2 as u64) << 16);
+    h = fnv_mix(h, e.verif_frame_clocks() as u64);
+    h = fnv_mix(h, fnv(&e.screen_buffer().pix));
+    h = fnv_mix(h, fnv(&e.border_buffer().pix));
+    let bc: u8 = e.border_color().into();
+    h = fnv_mix(h, bc as u64);
+    if let Some(a) = audio {
+        for s in a {
+            h = fnv_mix(h, (s.0.to_bits() as u64) << 32 | s.1.to_bits() as u64);
+        }
+    }
+    h
+}
+
+fn drain(e: &mut DEmu) -> Vec<(f32, f32)> {
+    let mut v = Vec::new();
+    while let Some(s) = e.next_audio_sample() {
+        v.push((s.left, s.right));
+    }
+    v
+}
+
+fn apply_inputs(e: &mut DEmu, sc: Scenario, frame: u64) {
+    if sc == Scenario::RomKeys {
+        // host inputs applied at frame boundaries
+        match frame {
+            0 => e.send_key(ZXKey::J, true),
+            2 => e.send_key(ZXKey::J, false),
+            3 => e.send_key(ZXKey::SymShift, true),
+            4 => e.send_key(ZXKey::P, true),
+            5 => {
+                e.send_key(ZXKey::P, false);
+                e.send_key(ZXKey::SymShift, false)
+            }
+            _ => {}
+        }
+    }
+}
+
+/// Returns per completed-frame digests: (state digest, state+audio digest when comparable)
+fn run_driving(sc: Scenario, m128: bool, k: usize, d: &Driving, dev: Option<&mut Dev>) -> Result<BTreeMap<u64, (u64, Option<u64>)>, String> {
+    let asset = if let Driving::Asset(a) = d { *a } else { AssetKind::Buffer };
+    let mut e = build(sc, m128, asset);
+    let mut out = BTreeMap::new();
+    rig::stopwatch_set(vec![], 0);
+    let limit = Duration::from_millis(20);
+    let mut dev = dev;
+    match d {
+        Driving::SoundOff => e.set_sound(false),
+        Driving::Breakpoints(pcs) => e.set_debug_interface(VDebug::at(pcs)),
+        Driving::BreakAlways => e.set_debug_interface(VDebug::always()),
+        _ => {}
+    }
+    let per_frame_inputs = !matches!(d, Driving::Composition(_) | Driving::MaxMode(_));
+    let mut call = 0usize;
+    apply_inputs(&mut e, sc, 0);
+    let mut guard = 0u64;
+    while (e.verif_total_frames() as usize) < k {
+        guard += 1;
+        if guard > 3_000_000 {
+            return Err("driving never reaches the frame count".into());
+        }
+        match d {
+            Driving::Composition(parts) => {
+                let n = parts.get(call).copied().unwrap_or(1);
+                e.set_speed(EmulationMode::FrameCount(n));
+            }
+            Driving::MaxMode(_) => {
+                e.set_speed(EmulationMode::Max);
+                // script: one ternary choice per stopwatch reading
+                let mut script = Vec::new();
+                for _ in 0..(2 * k + 4) {
+                    let c = match dev.as_mut() {
+                        Some(dv) => dv.choose(3),
+                        None => 0,
+                    };
+                    script.push(match c {
+                        0 => 0u64,
+                        1 => limit.as_nanos() as u64,
+                        _ => limit.as_nanos() as u64 + 1,
+                    });
+                }
+                rig::stopwatch_set(script, limit.as_nanos() as u64 + 1);
+            }
+            _ => {}
+        }
+        let before = e.verif_total_frames();
+        let info = e.emulate_frames(limit).map_err(|er| format!("emulate_frames error {:?}", er))?;
+        call += 1;
+        let after = e.verif_total_frames();
+        if matches!(d, Driving::MaxMode(_)) && after == before {
+            return Err("Max-mode call emulated no frame".into());
+        }
+        if info.stop_reason == EmulationStopReason::Breakpoint {
+            continue;
+        }
+        // at a frame boundary
+        let drained = match d {
+            Driving::Drain(pattern) => pattern & (1 << ((after - 1) % 16)) != 0,
+            _ => true,
+        };
+        let audio = if drained { Some(drain(&mut e)) } else { None };
+        let audio_comparable = matches!(d, Driving::Default | Driving::SoundOff | Driving::Asset(_) | Driving::Breakpoints(_) | Driving::BreakAlways) && after == before + 1;
+        let state = digest(&mut e, m128, None);
+        let with_audio = if audio_comparable { audio.as_ref().map(|a| digest(&mut e, m128, Some(a))) } else { None };
+        out.insert(after, (state, with_audio));
+        if per_frame_inputs {
+            apply_inputs(&mut e, sc, after);
+        }
+    }
+    Ok(out)
+}
+
+fn compare(ctx: &Ctx, sc: Scenario, m128: bool, base: &BTreeMap<u64, (u64, Option<u64>)>, got: &Result<BTreeMap<u64, (u64, Option<u64>)>, String>, d: &Driving, class: &str) {
+    let case = json!({"kind":"driving","scenario":format!("{:?}", sc),"m128":m128,"driving":format!("{:?}", d)});
+    let mname = if m128 { "128k" } else { "48k" };
+    match got {
+        Err(e) => ctx.violation(&format!("C16:{}:{:?}:error", class, sc), &format!("{:?} {} driven as {:?}: {}", sc, mname, d, e), case),
+        Ok(g) => {
+            for (f, (st, au)) in g.iter() {
+                match base.get(f) {
+                    None => {
+                        // beyond the horizon of the default table: nothing to compare with
+                        continue;
+                    }
+                    Some((bst, bau)) => {
+                        if st != bst {
+                            ctx.violation(
+                                &format!("C16:{}:{:?}:state-differs", class, sc),
+                                &format!("{:?} {} driven as {:?}: after frame {} registers/RAM/paging/frame clock/frame buffers differ from the default driving", sc, mname, d, f),
+                                case.clone(),
+                            );
+                            return;
+                        }
+                        if let (Some(a), Some(b)) = (au, bau) {
+                            if a != b {
+                                ctx.violation(
+                                    &format!("C16:{}:{:?}:audio-differs", class, sc),
+                                    &format!("{:?} {} driven as {:?}: audio of frame {} differs from the default driving", sc, mname, d, f),
+                                    case.clone(),
+                                );
+                                return;
+                            }
+                        }
+                    }
+                }
+            }
+        }
+    }
+}
+
+fn compositions(k: usize, thorough: bool) -> Vec<Vec<usize>> {
+    let mut out = Vec::new();
+    for mask in 0..(1u32 << (k - 1)) {
+        let mut parts = Vec::new();
+        let mut cur = 1;
+        for i in 0..k - 1 {
+            if mask & (1 << i) != 0 {
+                parts.push(cur);
+                cur = 1;
+            } else {
+                cur += 1;
+            }
+        }
+        parts.push(cur);
+        if !thorough || k <= 8 || parts.len() <= 4 || parts.iter().all(|p| *p <= 2) {
+            out.push(parts);
+        }
+    }
+    out
+}
+
+pub fn run(tier: Tier, seed: u64, replay: Option<String>) -> i32 {
+    let ctx = Ctx::new("C16", tier, seed, "exploration");
+    let thorough = tier.is_thorough();
+    if let Some(path) = replay {
+        let v: serde_json::Value = serde_json::from_slice(&rig::read_file(&path)).expect("replay json");
+        println!("replay: the recorded case is {}; re-running the whole scenario family", v["case"]);
+    }
+    let k = if thorough { 12 } else { 6 };
+    let scenarios = [Scenario::RomBoot, Scenario::RomKeys, Scenario::TapeFast, Scenario::TapeReal, Scenario::Tune];
+    let mut jobs: Vec<(Scenario, bool)> = Vec::new();
+    for s in scenarios {
+        for m in [false, true] {
+            jobs.push((s, m));
+        }
+    }
+    par_for(jobs.len(), 1, |j| {
+        let (sc, m128) = jobs[j];
+        // the default table reaches further than K: a Max-mode call may run past frame K
+        let kbase = 2 * k + 6;
+        let base = match run_driving(sc, m128, kbase, &Driving::Default, None) {
+            Ok(b) => b,
+            Err(e) => {
+                ctx.violation(&format!("C16:default:{:?}:error", sc), &format!("default driving failed: {}", e), json!({"kind":"driving","scenario":format!("{:?}", sc),"m128":m128}));
+                return;
+            }
+        };
+        ctx.outcome(base.values().fold(0u64, |a, b| fnv_mix(a, b.0)));
+        // determinism: identical second run
+        let again = run_driving(sc, m128, kbase, &Driving::Default, None);
+        if again.as_ref().ok() != Some(&base) {
+            ctx.violation(&format!("C16:repeat:{:?}", sc), &format!("{:?}: two identical runs differ", sc), json!({"kind":"driving","scenario":format!("{:?}", sc),"m128":m128,"driving":"Default twice"}));
+        }
+        let mut n = 2u64;
+        // all compositions of K frames into FrameCount(n) calls
+        for parts in compositions(k, thorough) {
+            let d = Driving::Composition(parts);
+            let g = run_driving(sc, m128, k, &d, None);
+            compare(&ctx, sc, m128, &base, &g, &d, "frames-per-call");
+            n += 1;
+        }
+        // Max mode: stopwatch answers explored with a deviation bound
+        let bound = if thorough { 2 } else { 1 };
+        let (runs, _, capped) = explore_dev(bound, 4000, |dev| {
+            let d = Driving::MaxMode(dev.trace.iter().map(|t| t.0).collect());
+            let g = run_driving(sc, m128, k, &d, Some(dev));
+            let d2 = Driving::MaxMode(dev.trace.iter().map(|t| t.0).collect());
+            compare(&ctx, sc, m128, &base, &g, &d2, "max-mode-stopwatch");
+        });
+        n += runs;
+        if capped {
+            ctx.note("max_mode_run_cap_hit", json!(true));
+        }
+        // breakpoints
+        let pcs: Vec<u16> = vec![0x0038, 0x028E, 0x0010, 0x15F2, 0x10A8, 0x0556, 0x11DC, 0x0E5C];
+        for sub in 1..(1u32 << 8) {
+            if !thorough && sub.count_ones() != 1 && sub != 0xFF {
+                continue;
+            }
+            let sel: Vec<u16> = (0..8).filter(|i| sub & (1 << i) != 0).map(|i| pcs[i]).collect();
+            let d = Driving::Breakpoints(sel);
+            let g = run_driving(sc, m128, k, &d, None);
+            compare(&ctx, sc, m128, &base, &g, &d, "breakpoints");
+            n += 1;
+        }
+        {
+            // stop at every instruction of the first two frames
+            let d = Driving::BreakAlways;
+            let g = run_driving(sc, m128, 2.min(k), &d, None);
+            compare(&ctx, sc, m128, &base, &g, &d, "break-every-instruction");
+            n += 1;
+        }
+        // sound off, drain patterns
+        {
+            let d = Driving::SoundOff;
+            let g = run_driving(sc, m128, k, &d, None);
+            compare(&ctx, sc, m128, &base, &g, &d, "sound-off");
+            n += 1;
+        }
+        let patterns: Vec<u32> = if thorough { (0..(1u32 << k.min(12))).step_by(7).collect() } else { (0..(1u32 << k)).collect() };
+        for p in patterns {
+            let d = Driving::Drain(p);
+            let g = run_driving(sc, m128, k, &d, None);
+            compare(&ctx, sc, m128, &base, &g, &d, "drain-schedule");
+            n += 1;
+        }
+        // asset implementations
+        if matches!(sc, Scenario::TapeFast | Scenario::TapeReal | Scenario::Tune) {
+            for a in [AssetKind::Chunk(1), AssetKind::Chunk(2), AssetKind::Chunk(3), AssetKind::Chunk(127), AssetKind::Chunk(128), AssetKind::Chunk(129), AssetKind::File, AssetKind::Gzip] {
+                let d = Driving::Asset(a);
+                let g = run_driving(sc, m128, k, &d, None);
+                compare(&ctx, sc, m128, &base, &g, &d, "asset-implementation");
+                n += 1;
+            }
+        }
+        ctx.add_eval(n);
+        ctx.add_nontrivial(n);
+    });
+    ctx.sample(json!({"scenario":"TapeFast","m128":true,"driving":"Composition([2, 1, 3])"}));
+    ctx.note("frames", json!(k));
+    ctx.note("not_judged", json!("how many frames a Max-mode call emulates (the stopwatch decides); audio when it is not drained every frame or the call spans several frames"));
+    ctx.finish(
+        "scenarios {ROM boot, ROM with keys pressed/released at frame boundaries, tape fast load with autoload, real-time tape load, AY/beeper tune snapshot} x {48K,128K}; deviations from the default driving: every composition of the K frames into FrameCount(n) calls, Max mode with every stopwatch reading chosen from {0, limit, limit+1 ns} within a deviation bound, breakpoint stops at subsets of 8 ROM addresses and at every instruction, sound off, every drain/no-drain pattern, the same file bytes through BufferCursor / chunked reads {1,2,3,127,128,129} / a real file / GzipAsset; at every frame boundary a driving stops at, the digest of registers, all RAM, paging, frame clock, both frame buffers (and audio where comparable) must equal the default driving's digest of that frame; the default is run twice. distinct_nontrivial = drivings executed",
+        false,
+        &["frame boundaries are identified by the hook frame counter", "real file assets live under harness/target/c16-tmp and are unlinked immediately"],
+    )
 }
